@@ -34,11 +34,14 @@ def opUsedStmt (j : Json) : R Json := do
       let allQ ← allQubits c.registers
       usedStmt allQ c.macros [] s))
 
-/-- `{"circuit": …}` → `"ok"` | `{"err": cls}` — the walk with `merge_into(…, disjoint=block.parallel)` -/
+/-- `{"circuit": …}` → `"ok"` | `{"err": cls}` (`{"err": "JaqalError", "rule": tag}` for a JaqalError: `tag` tells the
+parallel-branch rejection `parallel-branches-same-qubit` from the within-gate one `gate-same-qubit-twice` and from
+resolution errors) — the walk with `validate_parallel` in force -/
 def opParallelCheck (j : Json) : R Json := do
   let c ← Circuit.fromJson (← jget j "circuit")
   match checkDisjoint c with
   | .ok () => pure (.str "ok")
+  | .error (.jaqal rule) => pure (jobj [("err", .str "JaqalError"), ("rule", .str rule)])
   | .error e => pure (jobj [("err", .str e.cls)])
 
 def ops : List (String × (Json → R Json)) :=
